@@ -223,3 +223,86 @@ def pendg2(ctx, pid):
     else:
         got = sorted(sorted(str(x) for x in cs)[:6] for cs in conds)
         ctx.bad(c, inc.where(), "the short-root prune is guarded by %s (key `%s`)" % (got[:1], tstr(kt)[:30] if kt else None))
+
+
+DEFAULTS = {
+    # qual -> {param: expected default (python value or constant name in trie.constants)}
+    "trie.hexary:HexaryTrie.__init__": {"root_hash": "BLANK_NODE_HASH", "prune": False, "ref_count": None},
+    "trie.hexary:HexaryTrie._get_proof": {"proven_len": 0, "last_proof": ()},
+    "trie.binary:BinaryTrie.__init__": {"root_hash": "BLANK_HASH"},
+    "trie.binary:BinaryTrie._set": {"if_delete_subtrie": False},
+    "trie.binary:BinaryTrie._set_kv_node": {"if_delete_subtrie": False},
+    "trie.binary:BinaryTrie._set_branch_node": {"if_delete_subtrie": False},
+    "trie.smt:SparseMerkleTree.__init__": {"key_size": 32, "default": "BLANK_NODE"},
+    "trie.smt:SparseMerkleTree.from_db": {"key_size": 32, "default": "BLANK_NODE"},
+    "trie.utils.db:ScratchDB.batch_commit": {"do_deletes": False},
+    "trie.fog:HexaryTrieFog.nearest_unknown": {"key_input": ()},
+    "trie.iter:NodeIterator.next": {"key_bytes": None},
+    "trie.exceptions:MissingTrieNode.__init__": {"prefix": None},
+}
+DEFAULT_PROPS = {
+    "C01": ["trie.hexary:HexaryTrie.__init__"], "C02": ["trie.hexary:HexaryTrie.__init__"], "C04": ["trie.hexary:HexaryTrie.__init__"],
+    "C03": ["trie.hexary:HexaryTrie._get_proof", "trie.hexary:HexaryTrie.__init__"],
+    "C06": ["trie.hexary:HexaryTrie.__init__", "trie.utils.db:ScratchDB.batch_commit"],
+    "C05": ["trie.utils.db:ScratchDB.batch_commit"], "C17": ["trie.utils.db:ScratchDB.batch_commit"],
+    "C07": ["trie.exceptions:MissingTrieNode.__init__"],
+    "C12": ["trie.binary:BinaryTrie.__init__", "trie.binary:BinaryTrie._set", "trie.binary:BinaryTrie._set_kv_node", "trie.binary:BinaryTrie._set_branch_node"],
+    "C13": ["trie.binary:BinaryTrie.__init__"],
+    "C14": ["trie.smt:SparseMerkleTree.__init__", "trie.smt:SparseMerkleTree.from_db"],
+    "C10": ["trie.iter:NodeIterator.next"], "C11": ["trie.fog:HexaryTrieFog.nearest_unknown"],
+}
+CONSTANTS = {
+    "BLANK_NODE": b"",
+    "BLANK_HASH": bytes.fromhex("c5d2460186f7233c927e7db2dcc703c0e500b653ca82273b7bfad8045d85a470"),
+    "BLANK_NODE_HASH": bytes.fromhex("56e81f171bcc55a6ff8345e692c0f86e5b48e01b996cadc001622fb5e363b421"),
+    "NIBBLE_TERMINATOR": 16, "HP_FLAG_2": 2, "HP_FLAG_0": 0,
+    "NODE_TYPE_BLANK": 0, "NODE_TYPE_LEAF": 1, "NODE_TYPE_EXTENSION": 2, "NODE_TYPE_BRANCH": 3,
+    "KV_TYPE": 0, "BRANCH_TYPE": 1, "LEAF_TYPE": 2, "BYTE_0": bytes([0]), "BYTE_1": bytes([1]),
+}
+CONST_PROPS = {
+    "C01": ["BLANK_NODE", "BLANK_NODE_HASH"], "C02": ["BLANK_NODE", "BLANK_NODE_HASH", "NIBBLE_TERMINATOR", "HP_FLAG_2", "HP_FLAG_0"],
+    "C12": ["BLANK_HASH", "BYTE_0", "BYTE_1", "KV_TYPE", "BRANCH_TYPE", "LEAF_TYPE"], "C13": ["BLANK_HASH", "BYTE_0", "BYTE_1"],
+    "C14": ["BLANK_NODE"], "C16": ["NIBBLE_TERMINATOR", "HP_FLAG_2", "HP_FLAG_0", "KV_TYPE", "BRANCH_TYPE", "LEAF_TYPE",
+                                   "NODE_TYPE_BLANK", "NODE_TYPE_LEAF", "NODE_TYPE_EXTENSION", "NODE_TYPE_BRANCH"],
+    "C08": ["NODE_TYPE_BLANK", "NODE_TYPE_LEAF", "NODE_TYPE_EXTENSION", "NODE_TYPE_BRANCH"],
+}
+
+
+@rule("DEFAULTS", sorted(set(DEFAULT_PROPS) | set(CONST_PROPS)))
+def defaults(ctx, pid):
+    """Default arguments of the entry points and the values of the protocol constants (what a call without the
+    argument means, what the blank hashes / type bytes / flags are) - values no shape rule looks at."""
+    from ..model import UNKNOWN
+    cm = ctx.P.modules.get("trie.constants")
+    for q in DEFAULT_PROPS.get(pid, []):
+        f = ctx.P.func(q)
+        ds = f.defaults()
+        for pn, want in DEFAULTS[q].items():
+            c = "default:%s(%s)" % (fkey(f), pn)
+            d = ds.get(pn)
+            if pn not in f.all_params():
+                ctx.unsure(c, f.loc(), "parameter `%s` no longer exists" % pn)
+                continue
+            if d is None:
+                ctx.bad(c, f.loc(), "`%s` has no default any more (expected %r)" % (pn, want))
+                continue
+            got = ctx.P.fold(f.module, d)
+            if isinstance(want, str):
+                wv = ctx.P.const(cm, want)
+                ok = got is not UNKNOWN and got == wv and type(got) is type(wv)
+                ws = want
+            else:
+                ok = got is not UNKNOWN and got == want and type(got) is type(want) or (want == () and ast.unparse(d) in ("()", "tuple()"))
+                ws = repr(want)
+            if ok:
+                ctx.ok(c, f.loc(), "default is %s" % ws, nontrivial=False)
+            else:
+                ctx.bad(c, f.loc(), "default of `%s` is `%s`, expected %s: a call that omits it changes meaning" % (pn, ast.unparse(d), ws))
+    for name in CONST_PROPS.get(pid, []):
+        got = ctx.P.const(cm, name)
+        c = "constant:%s" % name
+        want = CONSTANTS[name]
+        if got is not UNKNOWN and got == want and type(got) is type(want):
+            ctx.ok(c, "trie/constants.py", "%s = %r" % (name, want if not isinstance(want, bytes) or len(want) < 8 else want.hex()), nontrivial=False)
+        else:
+            ctx.bad(c, "trie/constants.py", "%s is %r, expected %r (protocol constant)" % (name, got, want))
